@@ -167,7 +167,11 @@ func body(sc Scenario, rec *[]event) func() {
 			return
 		}
 		ncb := 0
-		p := &apx.Processor{BufferSize: sc.Cap, OnError: func(_ context.Context, err error) { add("onerror", 0, false) }}
+		p := &apx.Processor{BufferSize: sc.Cap, OnError: func(_ context.Context, err error) {
+			add("onerror", 0, false)
+			vsched.Yield("onerror") // the report takes time: Close may be racing it
+			add("onerror-end", 0, false)
+		}}
 		p.Initialize()
 		for _, items := range sc.Producers {
 			vsched.GoNamed("producer", func() {
@@ -270,6 +274,13 @@ func checkHistory(sc Scenario, ev []event, r *vsched.Result) *oracleFail {
 			onerr++
 			if !failedCb {
 				return &oracleFail{"spurious-onerror", "OnError without a failing callback"}
+			}
+			if closeRet >= 0 && e.T > closeRet {
+				return &oracleFail{"error-report-after-close", "OnError began after Close had returned"}
+			}
+		case "onerror-end":
+			if closeRet >= 0 && e.T > closeRet {
+				return &oracleFail{"error-report-after-close", "OnError was still running when Close returned"}
 			}
 		case "close-call":
 			closeCall = e.T
